@@ -112,6 +112,11 @@ def expire (c : InstCfg) (tm : Term) (now : Nat) : Term :=
     else tm
   | none => tm
 
+/-- The latest instant at which the loop issues its next refresh attempt: the tick after the previous attempt began, or
+    the end of that attempt if it took longer, plus the health check that precedes the refresh. -/
+def nextAttemptBy (c : InstCfg) (tm : Term) : Nat :=
+  max tm.lastFinish (tm.lastStart + c.hb) + (if c.hasHealth then Gen.healthTimeout else 0)
+
 def step (s : State) (te : TEv) : R State :=
   if s.ended then pure s else
   let t := te.t
@@ -121,6 +126,17 @@ def step (s : State) (te : TEv) : R State :=
     | none => false
   match late with
   | some x => reject s!"instance {x.cfg.id}: the heartbeat loop demotes at {repr ((x.term.map fun tm => (expire x.cfg tm t).mustDemote))} but the flag is still raised at {t}"
+  | none =>
+  -- … and so must the loop's pace: while the term lasts, with no attempt in flight and no decision to demote, the next
+  -- attempt is issued within a tick of the previous one (or at once when that one took longer than a tick)
+  let idle := s.insts.find? fun x => match x.term with
+    | some tm =>
+      let tm := expire x.cfg tm t
+      !x.halted && tm.pending.isNone && tm.mustDemote.isNone &&
+        decide (t > nextAttemptBy x.cfg tm)
+    | none => false
+  match idle with
+  | some x => reject s!"instance {x.cfg.id}: no refresh attempt since {repr (x.term.map (·.lastStart))} (previous one finished at {repr (x.term.map fun tm => (expire x.cfg tm t).lastFinish)}): the next one was due by {repr (x.term.map fun tm => nextAttemptBy x.cfg (expire x.cfg tm t))}, now {t}"
   | none =>
   match te.ev with
   | .end_ => pure { s with ended := true }
@@ -178,7 +194,7 @@ def step (s : State) (te : TEv) : R State :=
           let tm := expire x.cfg tm t
           if tm.mustDemote.isSome then reject s!"instance {i}: refresh attempt after the loop decided to demote"
           else if tm.pending.isSome then reject s!"instance {i}: refresh attempt while the previous one is neither answered nor timed out"
-          else if t > max tm.lastFinish (tm.lastStart + x.cfg.hb) + (if x.cfg.hasHealth then Gen.healthTimeout else 0) then
+          else if t > nextAttemptBy x.cfg tm then
             reject s!"instance {i}: refresh attempt at {t}, later than a tick after the previous attempt (start {tm.lastStart}, finish {tm.lastFinish})"
           else if t < tm.since + (tm.attempts + 1) * x.cfg.hb then
             -- the loop is paced by a ticker of period H created when the term began: the k-th attempt cannot precede the k-th tick
